@@ -38,7 +38,10 @@ const (
 //   * Functions for querying OpenType Layout features in the font face.
 //   **/
 
-const maxNestingLevel = 6
+// maxNestingLevel is the number of nested lookups a contextual lookup may call
+// (HB_MAX_NESTING_LEVEL upstream: 64; libharfbuzz 6.0.0 applies a chain of 63 nested contextual
+// lookups and stops at 64)
+const maxNestingLevel = 64
 
 func (c *otApplyContext) applyString(proxy otProxyMeta, accel *otLayoutLookupAccelerator) {
 	buffer := c.buffer
